@@ -307,6 +307,9 @@ class Exec:
         for s, (l, r) in self.eval_list([n.left, n.right], st):
             if isinstance(n.op, ast.Sub) and isinstance(l, VView) and l.kind == 'keys' and isinstance(r, VPy) and isinstance(r.o, (set, frozenset)):
                 outs.append((s, VKeyDiff(l.src, tuple(sorted(r.o, key=repr))))); continue
+            if isinstance(n.op, ast.Add) and not (self.is_intlike(l) or isinstance(l, VBool)) and not (self.is_intlike(r) or isinstance(r, VBool)) and (isinstance(l, (VTup, VSlice, VFStr)) or isinstance(r, (VTup, VSlice, VFStr))):
+                # sequence / string concatenation: an uninterpreted function of both operands
+                outs.append((s, VObj(z3.Function('concat', Obj, Obj, Obj)(self.obj(l), self.obj(r))))); continue
             a, b = self.as_int(l), self.as_int(r)
             if isinstance(n.op, ast.Mod):
                 self.obl(s, 'defined.mod', b != 0, ast.unparse(n)[:80]); s = s.assume(b != 0)
@@ -844,7 +847,46 @@ class Exec:
             return s.hset(('global', b.o.__name__, name), v).ev('global_store', b.o.__name__, name, v)
         raise Unsupported(f'attribute assignment on {type(b).__name__}.{name}')
     def s_With(self, n, st):
-        # locks, catch_warnings(...), warnings_ignored(...): transparent (their protocol is trusted); `as` names are bound to an opaque object
+        # (1) generator-based context managers defined in the working tree (@contextmanager): their real body is executed -
+        #     the part before the yield on entry, the part after it on exit (shape: `pre; yield; post` or `try: pre; yield  finally: post`)
+        # (2) locks, catch_warnings(...), warnings_ignored(...): transparent (protocol trusted); `as` names bound to an opaque object
+        if len(n.items) == 1 and isinstance(n.items[0].context_expr, ast.Call):
+            item = n.items[0]; outs = []
+            handled = False
+            for s, f in self.eval(item.context_expr.func, st):
+                cmf = f.o if isinstance(f, VPy) else None
+                gen = getattr(cmf, '__wrapped__', None)
+                if gen is None or not isinstance(gen, types.FunctionType) or not self.is_repo_func(gen) or not inspect.isgeneratorfunction(gen): break
+                handled = True
+                split = self.cm_split(self.func_ast(gen))
+                if split is None: raise Unsupported(f'context manager {gen.__name__}: unsupported generator shape')
+                pre, post_ok, post_exc = split
+                for s1, args in self.eval_list(item.context_expr.args, s):
+                    kws = {}
+                    s2 = s1
+                    for kw in item.context_expr.keywords:
+                        r = self.eval(kw.value, s2)
+                        if len(r) != 1: raise Unsupported('context manager argument forks')
+                        s2, kv = r[0]; kws[kw.arg] = kv
+                    sub = Exec(self.uni, dict(gen.__globals__), prune=self.prune, call_model=self.call_model, name=self.name + '>' + gen.__name__)
+                    for a_ in ('obls', 'assumptions', 'dropped', 'raised', 'fields_mode', 'method_names', 'ghost_unhashable', 'fstr_eval_calls'): setattr(sub, a_, getattr(self, a_))
+                    genv = sub.bind_params(self.func_ast(gen), s2, args, kws, gen)
+                    caller_env = s2.env
+                    for k1, g1, v1 in sub.exec_block(pre, s2.with_env(tuple(genv.items()))):
+                        if k1 != 'next': outs.append((k1, g1.with_env(caller_env), v1)); continue
+                        gen_env = g1.env
+                        b0 = g1.with_env(caller_env)
+                        if item.optional_vars is not None: b0 = self.assign(b0, item.optional_vars, VPy(None))
+                        for kb, sb, vb in self.exec_block(n.body, b0):
+                            body_env = sb.env
+                            if kb == 'raise':
+                                if post_exc is None: outs.append((kb, sb, vb)); continue        # the generator is not resumed normally: code after a bare yield is skipped
+                                for k2, g2, v2 in sub.exec_block(post_exc, sb.with_env(gen_env)):
+                                    outs.append((kb, g2.with_env(body_env), vb) if k2 == 'next' else (k2, g2.with_env(body_env), v2))
+                            else:
+                                for k2, g2, v2 in sub.exec_block(post_ok, sb.with_env(gen_env)):
+                                    outs.append((kb, g2.with_env(body_env), vb) if k2 in ('next', 'return') else (k2, g2.with_env(body_env), v2))
+            if handled: return outs
         cur = [st]
         for item in n.items:
             nxt = []
@@ -854,10 +896,21 @@ class Exec:
                 for s2, v in rs:
                     nxt.append(self.assign(s2, item.optional_vars, VObj(M.fresh('ctxval'))) if item.optional_vars is not None else s2)
             cur = nxt
-        self.dropped.add('with-statement context managers (locks / warning filters): transparent')
+        self.dropped.add('with-statement context managers other than repository @contextmanager generators (locks / warning filters): transparent')
         outs = []
         for s in cur: outs += self.exec_block(n.body, s)
         return outs
+    @staticmethod
+    def cm_split(node):
+        body = [b for b in node.body if not (isinstance(b, ast.Expr) and isinstance(b.value, ast.Constant))]
+        def is_yield(st_): return isinstance(st_, ast.Expr) and isinstance(st_.value, ast.Yield)
+        for idx, st_ in enumerate(body):
+            if is_yield(st_): return body[:idx], body[idx + 1:], None
+        for idx, st_ in enumerate(body):
+            if isinstance(st_, ast.Try) and not st_.handlers and not st_.orelse:
+                for j, s2 in enumerate(st_.body):
+                    if is_yield(s2): return body[:idx] + st_.body[:j], st_.body[j + 1:] + st_.finalbody + body[idx + 1:], st_.finalbody
+        return None
     def s_If(self, n, st):
         outs = []
         for s, c in self.eval(n.test, st):
